@@ -759,11 +759,11 @@ func c09run(c *Ctx) {
 	}
 }
 
-// c09large: a few larger collections (plain executions, not exhaustive): caterpillars on 12 and 40 taxa whose
+// c09large: a few larger collections (plain executions, not exhaustive): caterpillars on 12, 25 and 40 taxa whose
 // labels are shifted, rooted and unrooted, against the same frequency table.
 func c09large(c *Ctx) {
-	for _, n := range []int{12, 40} {
-		for _, rooted := range []bool{false, true} {
+	for _, n := range []int{12, 25, 40} {
+		for _, rooted := range []int{0, 1, 2} { // no tree rooted, every other tree rooted, every tree rooted
 			var texts []string
 			for i, shift := range []int{0, 0, 0, 1, 2, 5} {
 				// caterpillar over a permutation of the labels: position j carries label perm[j]
@@ -782,7 +782,7 @@ func c09large(c *Ctx) {
 					cur.HasLen, cur.Len = true, float64(1+(2*j+3*i)%7)/8
 					cur = &rm.Node{Children: []*rm.Node{cur, lab(j)}}
 				}
-				if rooted && i%2 == 0 {
+				if rooted == 2 || (rooted == 1 && i%2 == 0) {
 					cur.HasLen, cur.Len = true, 0.25
 					cur = &rm.Node{Children: []*rm.Node{cur, lab(n - 1)}}
 				} else {
@@ -790,7 +790,7 @@ func c09large(c *Ctx) {
 				}
 				texts = append(texts, (&rm.Tree{Root: cur}).Newick())
 			}
-			for _, cutoff := range []float64{0.5, 2.0 / 3, 1} {
+			for _, cutoff := range []float64{0.5, 0.6, 2.0 / 3, 0.75, 1} {
 				cs := c09case{Kind: "large", Trees: texts, Cutoff: c09fmt(cutoff)}
 				c.Count("large_instances", 1)
 				c.Check(cs, func() (string, string) { return c09check(cs, c, nil) })
